@@ -602,7 +602,7 @@ def multiplex_threads(sysm, enc, trace, drivers):
     env.update(srcs)
     if m['shared']:
       tsi = iter_utils._ThreadSafeIterator(srcs['SRC0'])
-      tsi._lock = R.CtlRLock(sched, 'TSI.L')
+      tsi._lock = R.CtlLock(sched, 'TSI.L')
       env['TSI'] = tsi
     nsd = sysm.objects['DQ'].consts['_num_steps']
     ns = P['NS'] if 'NS' in P else (nsd if isinstance(nsd, int) else 255)
@@ -750,7 +750,7 @@ def prefetch_threads(sysm, enc, trace, drivers):
     q = real_queue(sched, enc, 'q', m['prefetch'], 0, None)
     srv = object.__new__(courier_server.PrefetchedCourierServer)
     srv._generator = q
-    srv._generator_lock = R.CtlRLock(sched, 'SRV.G')
+    srv._generator_lock = R.CtlLock(sched, 'SRV.G')
     srv._enqueue_thread = CtlThread(sched, 'prefetch')
     srv._shutdown_requested = False
     srv._last_heartbeat = 0.0
@@ -786,3 +786,162 @@ def prefetch_threads(sysm, enc, trace, drivers):
       fns[name] = [v for k, v in ns_.items() if callable(v) and getattr(v, '__code__', None) is not None and v.__code__.co_filename == '<string>'][-1]
     return fns
   return make, logs, {}
+
+
+# ------------------------------------------------------------------------------------------------
+# C20 (concurrent part): two pools competing for one shared Worker (Worker is a singleton per address)
+# ------------------------------------------------------------------------------------------------
+COURIER_WORKER = 'ml_metrics/_src/chainables/courier_worker.py'
+
+POOL_A = '''
+def pool_a():
+  got = W.acquire_by(PA)
+  if got:
+    LOGA.item(W.is_locked(PA))
+  PA.release_all()
+'''
+
+POOL_A_CLEANUP = '''
+def pool_a():
+  PA.release_all()          # e.g. the cleanup at the end of a pool-level operation, while another pool is acquiring
+'''
+
+POOL_B = '''
+def pool_b():
+  got = W.acquire_by(PB)
+  if got:
+    LOGB.item(W.is_locked(PB))      # B was told it owns the worker: nobody else may release it
+    W.release()
+'''
+
+POOL_B_BLOCKING = '''
+def pool_b():
+  got = W.acquire_by(PB, blocking=True)
+  if got:
+    LOGB.item(W.is_locked(PB))
+    W.release()
+'''
+
+
+POOL_ACQ_ALL = '''
+def {name}():
+  got = {pool}._acquire_all()
+  for w in got:
+    {log}.item(w.is_locked({pool}))
+  {pool}.release_all()
+'''
+
+POOL_ACQ_ALL_BLOCKING = '''
+def {name}():
+  got = {pool}._acquire_all(blocking=True)
+  for w in got:
+    {log}.item(w.is_locked({pool}))
+  {pool}.release_all()
+'''
+
+
+def ownership_drivers(variant):
+  if variant == 'acquire_all':
+    return POOL_ACQ_ALL.format(name='pool_a', pool='PA', log='LOGA'), POOL_ACQ_ALL.format(name='pool_b', pool='PB', log='LOGB')
+  if variant == 'acquire_all_blocking':
+    return POOL_ACQ_ALL.format(name='pool_a', pool='PA', log='LOGA'), POOL_ACQ_ALL_BLOCKING.format(name='pool_b', pool='PB', log='LOGB')
+  return (POOL_A_CLEANUP if variant == 'cleanup' else POOL_A), (POOL_B_BLOCKING if variant == 'blocking' else POOL_B)
+
+
+def build_ownership_system(variant='nonblocking', nworkers=1):
+  sysm = B.System()
+  src = F.load_sources([os.path.join(common.REPO, COURIER_WORKER)], {'Worker', 'WorkerPool'}, set())
+  wnames = ['W'] + [f'W{i}' for i in range(2, nworkers + 1)]
+  for wn in wnames:
+    sysm.objects[wn] = F.ObjSpec(wn, 'Worker', {'_worker_pool': ('ref', 0)}, prims={'_lock': ('lock', wn + '.L'), '_states_lock': ('rlock', wn + '.S')}, consts={'address': wn.lower()})
+    sysm.locks[wn + '.L'] = 'lock'
+    sysm.locks[wn + '.S'] = 'rlock'
+  for pn in ('PA', 'PB'):
+    sysm.objects[pn] = F.ObjSpec(pn, 'WorkerPool', {}, consts={'_workers': F.Val('tuple', items=[F.Val('obj', obj=wn) for wn in wnames])})
+  sysm.logs['LOGA'] = 2
+  sysm.logs['LOGB'] = 2
+  comp = F.Compiler(src, sysm.objects, {}, {'LOGA': 2, 'LOGB': 2}, {})
+  da, db = ownership_drivers(variant)
+  sysm.threads.append(comp.compile_thread('pool_a', da))
+  sysm.threads.append(comp.compile_thread('pool_b', db))
+  sysm.meta = {'variant': variant, 'workers': wnames, 'encoded_lines': sorted(comp.encoded_lines), 'dropped_lines': sorted(comp.dropped_lines), 'nprod': 0, 'items': (), 'ncons': 0}
+  return sysm
+
+
+def c20_ok(enc, sysm, st, final=True):
+  """While a pool has been told that it owns the worker (acquire_by returned True) it really owns it."""
+  import z3
+  conj = []
+  for lg in ('LOGA', 'LOGB'):
+    ln = st[('loglen', lg)]
+    for j in range(sysm.logs[lg]):
+      conj.append(z3.Implies(z3.ULT(B.BV(j), ln), st[('log', lg, j, 'val')] == 1))
+  # at the end nobody holds the worker and no lock misuse happened
+  if final:
+    for wn in sysm.meta['workers']:
+      conj.append(st[('cnt', wn + '.L')] == 0)
+  for tid in range(len(sysm.threads)):
+    conj.append(st[('died', tid)] == 0)
+  return z3.And(*conj)
+
+
+def c20_ok_py(logs, holder, final=True):
+  for name, lg in logs.items():
+    if any(e[2] != 1 for e in lg.entries):
+      return False, f'{name}: the pool was told it owns the worker but is_locked(pool) was False afterwards: {lg.entries}'
+    if getattr(lg, 'last_error', None):
+      return False, f'{name}: {lg.last_error}'
+  for w in (holder.get('workers') or []) if final else []:
+    if w._lock.owner is not None:
+      return False, 'a worker is still locked after both pools released'
+  return True, ''
+
+
+def ownership_threads(sysm, enc, trace, drivers):
+  from . import bmc_replay as R
+  logs = {'LOGA': PyLog(), 'LOGB': PyLog()}
+  holder = {}
+
+  def make(sched):
+    import sys, types
+    try:
+      import courier as cmod
+    except ImportError:
+      cmod = types.ModuleType('courier')
+      sys.modules['courier'] = cmod
+    if not hasattr(cmod, 'Client'):
+      class _C:
+        def __init__(self, *a, **k): self.futures = types.SimpleNamespace()
+      cmod.Client = _C
+    if not hasattr(cmod, 'Server'):
+      cmod.Server = object
+    from ml_metrics._src.chainables import courier_worker
+    ws = {}
+    for wn in sysm.meta['workers']:
+      w = courier_worker.Worker('vf-replay-' + wn.lower())
+      racy = sorted({r[2] for r in enc.racy if r[0] == 'g' and r[1] == wn})
+      cls = type('WorkerUnderReplay', (courier_worker.Worker,), {f: R.RacyField(sched, wn, f) for f in racy})
+      for f in racy:
+        w.__dict__['_vf_' + f] = w.__dict__.pop(f, None)
+      w.__class__ = cls
+      w._lock = R.CtlLock(sched, wn + '.L')
+      w._states_lock = R.CtlRLock(sched, wn + '.S')
+      if '_worker_pool' not in racy:
+        w._worker_pool = None
+      else:
+        w.__dict__['_vf__worker_pool'] = None
+      ws[wn] = w
+    pools = {}
+    for pn in ('PA', 'PB'):
+      p = object.__new__(courier_worker.WorkerPool)
+      p._workers = list(ws.values())
+      pools[pn] = p
+    holder['workers'] = list(ws.values())
+    env = {**ws, **pools, **logs}
+    fns = {}
+    for name, srcode in drivers.items():
+      ns_ = dict(env)
+      exec(srcode, ns_)
+      fns[name] = [v for k, v in ns_.items() if callable(v) and getattr(v, '__code__', None) is not None and v.__code__.co_filename == '<string>'][-1]
+    return fns
+  return make, logs, holder
